@@ -36,6 +36,8 @@ func main() {
 			usage()
 		}
 		os.Exit(replayMain(os.Args[2]))
+	case "race":
+		os.Exit(raceMain(os.Args[2:]))
 	case "minimise":
 		os.Exit(minimiseMain(os.Args[2], os.Args[3]))
 	case "list":
